@@ -34,6 +34,11 @@ POSITIONS = [
     "{'a': 1, 'b': false ? q1 : 2}.a", "{'a': true ? 1 : q1}.a == 1 ? 5 : q2", "max({'k': false ? q1 : 1}.k, 0)",
     "match {'k': true ? 1 : q1}.k { case 1: 2 }", "[1].map(v, {'k': false ? q1 : v}.k)", "coalesce({'k': true ? 1 : q1}.k)",
     "{'k': true || q1}.k", "{'k': false && q1}.k", "{'k': (true ? 1 : q1) + (false ? q2 : 2)}.k", "string({'k': true ? 1 : q1}.k)",
+    # names that a normalising or de-duplicating list would merge: they differ only in letter case, by an underscore, by a
+    # suffix, or one is a prefix of the other; and one name many times
+    "q1 + Q1", "rate * Rate", "[items].map(v, ITEMS)", "{'a': q1, 'b': Q1}.a", "q1 ? Q1 : qQ1", "f'{q1}{Q1}'", "q1.f(Q1)", "q_1 + q1 + q1_",
+    "q1 + q11 + q111", "ab + aB + Ab + AB", "x1 + X1 + x_1 + _x1", "q1 + q1 + q1", "match q1 { case Q1: qq1 }", "[q1, Q1].map(Q1, q1 + Q1)",
+    "zz + ZZ + zZ + Zz", "i + I", "has(q1.Q1) && has(Q1.q1)", "size + Size", "int + Int + INT",
 ]
 
 
